@@ -53,4 +53,45 @@ structure Fn where
   cases : List Case
   deriving Repr
 
+/-! ### text parsers (`Generated/ConvText.lean`, from convert_int.c, cfloat.c, cdouble.c, cldouble.c, convert_number.c) -/
+
+/-- operand of a test that follows the `strto*` call -/
+inductive TextAtom where
+  /-- `errno == ERANGE` -/
+  | erange
+  /-- the text has a minus sign: `sign = src; while (isspace(*sign)) ++sign; *sign == '-'` -/
+  | minus
+  /-- a test that involves the optional `range` argument (NULL in every call considered here) -/
+  | rangeArg
+  /-- a comparison of `tmp`, the value `strto*` returned -/
+  | val (a : Atom)
+  deriving DecidableEq, Repr
+
+/-- `if (c11 && .. || c21 && ..) return MPT_ERROR(err);` in disjunctive normal form -/
+structure TextGuard where
+  conds : List (List TextAtom)
+  err : Err
+  deriving DecidableEq, Repr
+
+/-- one `case sizeof(T):` of the `switch (vlen)`: range tests, then `[if (val)] *((store *) val) = tmp;` -/
+structure WidthCase where
+  size : Nat
+  guards : List TextGuard
+  store : CTy
+  guarded : Bool
+  deriving DecidableEq, Repr
+
+/-- `_mpt_convert_int`, `_mpt_convert_uint`, `mpt_cfloat`, `mpt_cdouble`, `mpt_cldouble`:
+    empty text -> 0; `[errno = 0;] tmp = strto(src, &end ..)`; nothing converted -> 0 for blank text, else BadType;
+    `guards`; the width switch (a single entry for the floating parsers); `return end - src` -/
+structure TextParser where
+  name : String
+  strto : String
+  tmpTy : CTy
+  errnoReset : Bool
+  dflt : Err
+  guards : List TextGuard
+  widths : List WidthCase
+  deriving Repr
+
 end Mpt.Conv
